@@ -21,7 +21,8 @@ Record NumLaws {R : Type} (N : Num R) : Prop := mkLaws {
   L_leb_antisym : forall x y, leb N x y = true -> leb N y x = true -> x = y;
   L_ltb_leb : forall x y, ltb N x y = negb (leb N y x);
   L_eqb_eq : forall x y, eqb N x y = true <-> x = y;
-  L_add_leb : forall x y z, leb N x y = true -> leb N (add N x z) (add N y z) = true
+  L_add_leb : forall x y z, leb N x y = true -> leb N (add N x z) (add N y z) = true;
+  L_mul_pos : forall x y, ltb N (zero N) x = true -> ltb N (zero N) y = true -> ltb N (zero N) (mul N x y) = true
 }.
 
 Section Derived.
@@ -77,4 +78,11 @@ Proof.
     + intros H. apply Qeq_bool_iff in H. apply Qc_is_canon. exact H.
     + intros ->. apply Qeq_bool_iff. reflexivity.
   - intros x y z H. apply Qc_leb_spec in H. apply Qc_leb_spec. apply Qcplus_le_compat; [exact H | apply Qcle_refl].
+  - intros x y Hx Hy. unfold Qc_ltb in *. apply negb_true_iff in Hx, Hy. apply negb_true_iff.
+    change (Qc_leb x 0 = false) in Hx. change (Qc_leb y 0 = false) in Hy. change (Qc_leb (x * y) 0 = false).
+    destruct (Qc_leb (x * y) 0) eqn:E; [|reflexivity]. exfalso.
+    assert (Hx' : (0 < x)%Qc) by (apply Qcnot_le_lt; intros H; apply Qc_leb_spec in H; congruence).
+    assert (Hy' : (0 < y)%Qc) by (apply Qcnot_le_lt; intros H; apply Qc_leb_spec in H; congruence).
+    apply Qc_leb_spec in E. pose proof (Qcmult_lt_compat_r 0 x y Hy' Hx') as Hm. replace (0 * y)%Qc with 0%Qc in Hm by ring.
+    apply (Qclt_not_le _ _ Hm). exact E.
 Qed.
